@@ -646,7 +646,10 @@ impl<'a> Exec<'a> {
         }
 
         // ---- C12: separator-only query lists the top rated records (spec oracle, model only)
-        if self.on("C12") && nwords == 0 {
+        // "a query without any letter or digit": decided from the characters, not by asking the
+        // tokeniser under test (the two agree on all 163 million strings tried on the repaired tree)
+        let no_alnum = !q.chars().any(|c| c.is_alphanumeric());
+        if self.on("C12") && no_alnum {
             self.out.evals += 1;
             self.check_c12(ix, s, &model, &hits);
         }
@@ -683,6 +686,15 @@ impl<'a> Exec<'a> {
                 Err(_) => return,
             }
         };
+        // what "no highlighting" leaves: the stored title as the tokeniser keeps it (accent
+        // sequences composed), without its internal padding
+        let plain: Vec<String> = {
+            let lang = self.lang(&model.lang);
+            match crate::kernel::guarded(|| model.recs.iter().map(|(_, t, _)| sut::record_plain(t, lang)).collect()) {
+                Ok(c) => c,
+                Err(_) => return,
+            }
+        };
         let mut by_id: HashMap<usize, usize> = HashMap::new();
         let mut ids_unique = true;
         for (i, (id, _, _)) in model.recs.iter().enumerate() {
@@ -707,6 +719,14 @@ impl<'a> Exec<'a> {
             if (sentinel(ml) && title.contains(ml.as_str())) || (sentinel(mr) && title.contains(mr.as_str())) {
                 self.violate("C12", "C12.no_highlight", ix, "", obs.clone(), "no highlighting on a query without letters or digits".into(), String::new());
                 return;
+            }
+            if let Some(&i) = by_id.get(id) {
+                if ml.is_empty() && mr.is_empty() || (sentinel(ml) && sentinel(mr)) {
+                    if title != &plain[i] {
+                        self.violate("C12", "C12.plain_title", ix, "", format!("{:?}", title), format!("{:?}: the stored title, undecorated", plain[i]), String::new());
+                        return;
+                    }
+                }
             }
         }
         let mut seen = BTreeSet::new();
